@@ -93,6 +93,69 @@ def generate(files, ops):
             nl[i] = "%s%s: hoisted_%s," % (m.group(1), m.group(2), m.group(2))
             nl.insert(j, "%slet hoisted_%s = %s;" % (ind, m.group(2), m.group(3)))
             muts.append(("hoistfield:%s:%d" % (rel, i + 1), rel, "\n".join(nl) + (text[cut:] if cut >= 0 else ""), l.strip()[:100]))
+        # structural rewrites that need brace matching
+        def block_end(txt, i):
+            """index just after the `}` that closes the `{` at txt[i]"""
+            depth, j, n = 0, i, len(txt)
+            while j < n:
+                ch = txt[j]
+                if ch == '"':
+                    j += 1
+                    while j < n and txt[j] != '"':
+                        j += 2 if txt[j] == "\\" else 1
+                elif ch == "/" and txt[j : j + 2] == "//":
+                    j = txt.find("\n", j)
+                    if j < 0:
+                        return -1
+                elif ch == "{":
+                    depth += 1
+                elif ch == "}":
+                    depth -= 1
+                    if depth == 0:
+                        return j + 1
+                j += 1
+            return -1
+
+        tail = text[cut:] if cut >= 0 else ""
+        if not ops or "ifswap" in ops:
+            for m in re.finditer(r"\bif ([^{}\n;]{3,90}?) \{", body):
+                if re.match(r"\s*let\b", m.group(1)) or " let " in m.group(1):
+                    continue
+                pre = body[max(0, m.start() - 5) : m.start()]
+                if "else" in pre:
+                    continue
+                b1 = m.end() - 1
+                e1 = block_end(body, b1)
+                if e1 < 0:
+                    continue
+                m2 = re.match(r"\s*else \{", body[e1:])
+                if not m2:
+                    continue
+                b2 = e1 + m2.end() - 1
+                e2 = block_end(body, b2)
+                if e2 < 0 or re.match(r"\s*else\b", body[e2:]):
+                    continue
+                new = body[: m.start()] + "if !(" + m.group(1) + ") " + body[b2:e2] + " else " + body[b1:e1] + body[e2:]
+                muts.append(("ifswap:%s:%d" % (rel, body.count("\n", 0, m.start()) + 1), rel, new + tail, m.group(0)[:100]))
+        if not ops or "foreach" in ops:
+            for m in re.finditer(r"([A-Za-z_][\w.]*(?:\.iter\(\)|\.iter_mut\(\)|\.iter\(\)\.rev\(\)))\s*\.for_each\(\|(\w+)\| \{", body):
+                b1 = m.end() - 1
+                e1 = block_end(body, b1)
+                if e1 < 0 or not re.match(r"\s*\)\s*;?", body[e1:]) or "return" in body[b1:e1]:
+                    continue
+                close = re.match(r"\s*\)\s*;?", body[e1:]).end()
+                new = body[: m.start()] + "for " + m.group(2) + " in " + m.group(1) + " " + body[b1:e1] + body[e1 + close :]
+                muts.append(("foreach:%s:%d" % (rel, body.count("\n", 0, m.start()) + 1), rel, new + tail, m.group(0)[:100]))
+        if not ops or "hoistcond" in ops:
+            for m in re.finditer(r"^(\s*)if ([^{}\n;]{8,100}?) \{$", body, re.M):
+                if " let " in " " + m.group(2) or m.group(2).startswith("let "):
+                    continue
+                ls = m.start()
+                prev = body[:ls].rstrip()
+                if prev.endswith("else") or prev.endswith("=>") or prev.endswith("="):
+                    continue
+                new = body[:ls] + m.group(1) + "let hoisted_condition = " + m.group(2) + ";\n" + m.group(1) + "if hoisted_condition {" + body[m.end() :]
+                muts.append(("hoistcond:%s:%d" % (rel, body.count("\n", 0, m.start()) + 1), rel, new + tail, m.group(2)[:100]))
         # rename a local (declared once with `let`, long enough not to collide)
         if not ops or "renamelocal" in ops:
             for m in re.finditer(r"\blet (?:mut )?([a-z][a-z_]{5,})\b", body):
